@@ -223,6 +223,15 @@ Definition sort_members (t : table) (k : keyf) (asc : bool) (m : list id) : opti
   | Some _ => Some (isort (dir_le asc) (key_or0 t k) m)
   end.
 
+(* tuple keys (k1(a), k2(a)) compare lexicographically; a stable sort by the second component followed by a
+   stable sort by the first is the stable lexicographic sort (in both directions) *)
+Definition sort2_members (t : table) (k1 k2 : keyf) (asc : bool) (m : list id) : option (list id) :=
+  match all_some (fun a => match eval_key t k1 a, eval_key t k2 a with
+                           | Some x, Some y => Some (x, y) | _, _ => None end) m with
+  | None => None
+  | Some _ => Some (isort (dir_le asc) (key_or0 t k1) (isort (dir_le asc) (key_or0 t k2) m))
+  end.
+
 (* ---------- shuffle (agent.py:248-270): the outcome is an input ---------- *)
 Fixpoint zlist_eqb (a b : list Z) : bool :=
   match a, b with
@@ -278,6 +287,7 @@ Definition store (st : state) (i : Z) (m : list id) : state :=
 Inductive op :=
 | Select (s : Z) (p : option pred) (am : atmost) (ty : option Z) (inplace : bool) (d : Z)
 | Sort (s : Z) (k : keyf) (asc inplace : bool) (d : Z)
+| Sort2 (s : Z) (k1 k2 : keyf) (asc inplace : bool) (d : Z)    (* key = lambda a: (k1(a), k2(a)) : tuples, lexicographic *)
 | Shuffle (s : Z) (outcome : list id) (inplace : bool) (d : Z)
 | GroupBy (s : Z) (k : keyf) (rt : bool)             (* result_type: true = "agentset", false = "list" *)
 | GroupGet (s : Z) (k : keyf) (kv : Z) (d : Z)      (* s.groupby(k).groups[kv] *)
@@ -445,6 +455,16 @@ Definition step (st : state) (o : op) : state * result :=
       | Some m =>
           if negb (valid_slot d) then (st, RSkip) else
           match sort_members t k asc m with
+          | None => (st, RErr E_ATTR)
+          | Some r => (store st (if inplace then s else d) r, flag_ok inplace)
+          end
+      end
+  | Sort2 s k1 k2 asc inplace d =>
+      match getm s with
+      | None => (st, RSkip)
+      | Some m =>
+          if negb (valid_slot d) then (st, RSkip) else
+          match sort2_members t k1 k2 asc m with
           | None => (st, RErr E_ATTR)
           | Some r => (store st (if inplace then s else d) r, flag_ok inplace)
           end
